@@ -294,11 +294,41 @@ func (c *Ctx) withMailboxClosures(withMailbox *ssa.Function) map[*ssa.Function]s
 			if (&eng.Search{Target: eng.IsReturnOf(fn), Avoid: ops.isRel}).After(acq) != nil {
 				continue
 			}
+			mode := "r"
 			if nW == nAcq {
-				out[fn] = "w"
-			} else {
-				out[fn] = "r"
+				mode = "w"
 			}
+			out[fn] = mode
+			// a self-locking function that runs a callback parameter under the lock is a gate
+			// (readMailbox(name, f) / writeMailbox(name, f)): every function passed for that
+			// parameter runs under the lock in the gate's mode
+			eng.EachInstr(fn, func(ci ssa.Instruction) {
+				cc, ok := ci.(*ssa.Call)
+				if !ok || ci.Parent() != fn || cc.Call.IsInvoke() || eng.StaticCallee(cc.Common()) != nil || !eng.Dominates(acq, ci) {
+					return
+				}
+				fp, isP := cc.Call.Value.(*ssa.Parameter)
+				if !isP || fp.Parent() != fn {
+					return
+				}
+				// the callback runs with the lock still held (not after an early release)
+				if !alwaysHeld(fn, ci, ops, ops.isAcq) {
+					return
+				}
+				pi := eng.ParamIndex(fp)
+				for _, cs := range p.StaticCallSites(fn) {
+					if pi < 0 || pi >= len(cs.Args) {
+						continue
+					}
+					if h, _, ok := eng.FuncValueOf(cs.Args[pi]); ok && h != nil {
+						if old, has := out[h]; has && old != mode {
+							out[h] = "?"
+						} else {
+							out[h] = mode
+						}
+					}
+				}
+			})
 		}
 	}
 	if withMailbox == nil {
@@ -890,9 +920,31 @@ func (c *Ctx) c09NoBlock(pm *pairModel) {
 		// a function that takes the mailbox lock itself: that acquisition is the lock, not a
 		// blocking operation under it
 		ownAcq = nil
+		var firstAcq ssa.Instruction
 		if fMbMuNB != nil {
 			mo := opsFor(fMbMuNB)
 			ownAcq = func(in ssa.Instruction) bool { return in.Parent() == g && mo.isAcq(in) }
+			eng.EachInstr(g, func(in ssa.Instruction) {
+				if firstAcq == nil && in.Parent() == g && mo.isAcq(in) {
+					firstAcq = in
+				}
+			})
+		}
+		// … and what it does before taking the lock (looking the mailbox up under the store
+		// mutex) does not run under it: only calls the acquisition dominates count
+		if firstAcq != nil {
+			reach = map[*ssa.Function]bool{}
+			eng.EachInstr(g, func(in ssa.Instruction) {
+				call, ok := in.(*ssa.Call)
+				if !ok || !eng.Dominates(firstAcq, in) {
+					return
+				}
+				for _, callee := range p.Callees(call) {
+					for f := range p.ReachModule(callee) {
+						reach[f] = true
+					}
+				}
+			})
 		}
 		var whys []string
 		for f := range reach {
@@ -1006,6 +1058,130 @@ func (c *Ctx) c09File(pm *pairModel) {
 		}
 		return false
 	}
+	// gates: mbox methods that take the bucket lock themselves, release it on every exit and
+	// run a callback parameter in between (mb.update(fn) / mb.view(fn)); a function passed for
+	// that parameter runs under the lock in the gate's mode. gateOf maps such a function to
+	// (mode, the call that passes it).
+	gateMode := map[*ssa.Function]string{}
+	type gateUse struct {
+		mode string
+		site *ssa.Call
+	}
+	gateOf := map[*ssa.Function]gateUse{}
+	for _, g := range ffns {
+		g := g
+		if !isMboxMethod(g) || g.Parent() != nil {
+			continue
+		}
+		var acq ssa.Instruction
+		nAcq, nW := 0, 0
+		eng.EachInstr(g, func(in ssa.Instruction) {
+			if in.Parent() == g && ops.isAcq(in) {
+				if acq == nil {
+					acq = in
+				}
+				nAcq++
+				if ops.isWriteAcq(in) {
+					nW++
+				}
+			}
+		})
+		if acq == nil || (&eng.Search{Target: eng.IsReturnOf(g), Avoid: ops.isRel}).After(acq) != nil {
+			continue
+		}
+		mode := "r"
+		if nW == nAcq {
+			mode = "w"
+		}
+		gateMode[g] = mode
+		eng.EachInstr(g, func(ci ssa.Instruction) {
+			cc, ok := ci.(*ssa.Call)
+			if !ok || ci.Parent() != g || cc.Call.IsInvoke() || eng.StaticCallee(cc.Common()) != nil || !eng.Dominates(acq, ci) {
+				return
+			}
+			fp, isP := cc.Call.Value.(*ssa.Parameter)
+			if !isP || fp.Parent() != g {
+				return
+			}
+			if !alwaysHeld(g, ci, ops, ops.isAcq) {
+				return
+			}
+			pi := eng.ParamIndex(fp)
+			for _, cs := range p.StaticCallSites(g) {
+				site, isCall := cs.Instr.(*ssa.Call)
+				if !isCall || pi < 0 || pi >= len(cs.Args) {
+					continue
+				}
+				if h, _, ok := eng.FuncValueOf(cs.Args[pi]); ok && h != nil {
+					if old, has := gateOf[h]; has && old.mode != mode {
+						gateOf[h] = gateUse{"r", site}
+					} else {
+						gateOf[h] = gateUse{mode, site}
+					}
+				}
+			}
+		})
+	}
+	// heldAt: the bucket lock is held at `in` in the needed mode: by the enclosing function's
+	// own acquisitions, or because the instruction sits in a function a gate runs
+	heldAt := func(fn *ssa.Function, in ssa.Instruction, needW bool) bool {
+		acq := ops.isAcq
+		if needW {
+			acq = ops.isWriteAcq
+		}
+		for g := in.Parent(); g != nil; g = g.Parent() {
+			if gu, ok := gateOf[g]; ok {
+				return !needW || gu.mode == "w"
+			}
+		}
+		if in.Parent() != fn {
+			// a closure that is not run by a gate: only its own locking counts
+			own := false
+			eng.EachInstr(in.Parent(), func(x ssa.Instruction) {
+				if x.Parent() == in.Parent() && acq(x) {
+					own = true
+				}
+			})
+			return own && alwaysHeld(in.Parent(), in, ops, acq)
+		}
+		return alwaysHeld(fn, in, ops, acq)
+	}
+	// selfProtecting: an mbox method that may be called without the lock because everything it
+	// does to the mailbox it does through gates (lockedMessages wraps view(getMessages))
+	var selfProtecting func(g *ssa.Function, depth int) bool
+	selfProtecting = func(g *ssa.Function, depth int) bool {
+		if depth > 3 || g == nil || len(g.Blocks) == 0 {
+			return false
+		}
+		okAll, nOps := true, 0
+		eng.EachInstr(g, func(in ssa.Instruction) {
+			switch x := in.(type) {
+			case *ssa.Call:
+				m2 := eng.StaticCallee(x.Common())
+				if !isMboxMethod(m2) {
+					return
+				}
+				nOps++
+				if _, isGate := gateMode[m2]; isGate {
+					return
+				}
+				if !heldAt(g, in, mutates(m2)) && !selfProtecting(m2, depth+1) {
+					okAll = false
+				}
+			case *ssa.Store:
+				fa, ok := x.Addr.(*ssa.FieldAddr)
+				if !ok {
+					return
+				}
+				if f := eng.FieldOfAddr(fa); f != nil && f.Pkg() != nil && f.Pkg().Path() == eng.Mod+"/pkg/storage/file" {
+					if _, fresh := fa.X.(*ssa.Alloc); !fresh && !heldAt(g, in, true) {
+						okAll = false
+					}
+				}
+			}
+		})
+		return okAll && nOps > 0
+	}
 	n := 0
 	for _, fn := range ffns {
 		if fn.Signature.Recv() == nil || fn.Parent() != nil {
@@ -1021,7 +1197,13 @@ func (c *Ctx) c09File(pm *pairModel) {
 		fn := fn
 		var problems []string
 		calls := 0
-		eng.EachInstr(fn, func(in ssa.Instruction) {
+		// the method and the closures nested in it (critical sections handed to a lock gate)
+		eachDeep := func(f func(in ssa.Instruction)) {
+			for _, u := range eng.WithAnons(fn) {
+				eng.EachInstr(u, f)
+			}
+		}
+		eachDeep(func(in ssa.Instruction) {
 			call, ok := in.(*ssa.Call)
 			if !ok {
 				return
@@ -1031,12 +1213,11 @@ func (c *Ctx) c09File(pm *pairModel) {
 				return
 			}
 			calls++
-			needW := mutates(g)
-			acq := ops.isAcq
-			if needW {
-				acq = ops.isWriteAcq
+			if _, isGate := gateMode[g]; isGate {
+				return // takes the lock itself
 			}
-			if !alwaysHeld(fn, in, ops, acq) {
+			needW := mutates(g)
+			if !heldAt(fn, in, needW) && !selfProtecting(g, 0) {
 				if needW {
 					problems = append(problems, "call of "+shortFn(g)+" at "+p.InstrPos(in)+" (which can write the index or unlink files) is not under the bucket write lock")
 				} else {
@@ -1045,7 +1226,7 @@ func (c *Ctx) c09File(pm *pairModel) {
 			}
 		})
 		// persisted field writes directly in the Store method (MarkSeen sets Fseen)
-		eng.EachInstr(fn, func(in ssa.Instruction) {
+		eachDeep(func(in ssa.Instruction) {
 			st, ok := in.(*ssa.Store)
 			if !ok {
 				return
@@ -1062,7 +1243,7 @@ func (c *Ctx) c09File(pm *pairModel) {
 				return
 			}
 			calls++
-			if !alwaysHeld(fn, in, ops, ops.isWriteAcq) {
+			if !heldAt(fn, in, true) {
 				problems = append(problems, "store to "+f.Name()+" at "+p.InstrPos(in)+" is not under the bucket write lock")
 			}
 		})
@@ -1116,6 +1297,48 @@ func (c *Ctx) c09File(pm *pairModel) {
 				for _, rl := range rels {
 					if (&eng.Search{Target: func(in ssa.Instruction) bool { return in == wr }}).After(rl) != nil {
 						problems = append(problems, "the bucket lock is released at "+p.InstrPos(rl)+" between loading the index ("+p.InstrPos(ld)+") and writing it back ("+p.InstrPos(wr)+"): two overlapping operations on one mailbox both succeed but one update is lost")
+					}
+				}
+			}
+		}
+		// the same with gates: each gate call is a critical section of its own; an index loaded
+		// in one and written back in a later one is stale
+		{
+			type sect struct {
+				site         *ssa.Call
+				loads, wries bool
+			}
+			var sects []sect
+			eng.EachInstr(fn, func(in ssa.Instruction) {
+				call, ok := in.(*ssa.Call)
+				if !ok || in.Parent() != fn {
+					return
+				}
+				g := eng.StaticCallee(call.Common())
+				if _, isGate := gateMode[g]; !isGate {
+					return
+				}
+				sc := sect{site: call}
+				roots := []*ssa.Function{g}
+				for _, a := range call.Call.Args {
+					if h, _, ok := eng.FuncValueOf(a); ok && h != nil {
+						roots = append(roots, h)
+					}
+				}
+				for _, rt := range roots {
+					if reachesNamed(rt, "readIndex") {
+						sc.loads = true
+					}
+					if reachesNamed(rt, "writeIndex") {
+						sc.wries = true
+					}
+				}
+				sects = append(sects, sc)
+			})
+			for _, a := range sects {
+				for _, b := range sects {
+					if a.site != b.site && a.loads && b.wries && eng.Dominates(a.site, b.site) {
+						problems = append(problems, "the index is loaded in the critical section at "+p.InstrPos(a.site)+" and written back in a later one at "+p.InstrPos(b.site)+" (the lock is released in between): two overlapping operations on one mailbox both succeed but one update is lost")
 					}
 				}
 			}
